@@ -67,6 +67,17 @@ def add_twin(r, tree):
 def make_scenario(spec, seed, idx):
     r = core.rng_for(ID, seed, idx)
     tree = progs.gen_tree(r, max_depth=r.choice((1, 2, 3, 4, 4, 6)), nfiles=r.choice((None, None, None, 6, 8)))
+    if r.random() < 0.04:
+        # a wide tree: one tiny leaf included 65-90 times from the main file (any limit on the NUMBER of includes would show)
+        leaf = posixpath.dirname(tree['main']) + '/pad.inc'
+        if leaf not in tree['files'] and not any(leaf in progs._cands(tree['inc_dirs'], posixpath.dirname(i['from']), i['written']) for i in tree['includes']):
+            tree['files'][leaf] = '    nop\n'
+            n = r.randint(65, 90)
+            crlf = '\r\n' in tree['files'][tree['main']]
+            body = tree['files'][tree['main']].replace('\r\n', '\n').rstrip('\n')
+            body += '\n' + '\n'.join(['include pad.inc'] * n) + '\n'
+            tree['files'][tree['main']] = body.replace('\n', '\r\n') if crlf else body
+            tree['includes'].extend({'from': tree['main'], 'written': 'pad.inc', 'target': leaf} for _ in range(n))
     if r.random() < 0.2:
         add_twin(r, tree)
     if r.random() < 0.8:
